@@ -21,6 +21,8 @@ pub mod symbols;
 pub mod fast_check;
 pub mod packages;
 pub mod source;
+#[cfg(feature = "verif_hooks")]
+pub mod verif_hooks;
 
 use source::FileSystem;
 use source::JsrUrlProvider;
